@@ -34,6 +34,7 @@ type scenario struct {
 
 const (
 	fileSize  = 4096
+	bigSize   = 160 * 1024 // f2 is large, so that reads longer than the server's max payload (32768) can be issued ("B" items)
 	wrBase    = 2048
 	opStride  = 48
 	opLen     = 32
@@ -110,7 +111,7 @@ func runPipeline(t testing.TB, tr *tracer, o srvOpts, sc scenario, salt int, dif
 		root = prepRoot(t, "root")
 		o.root = root
 		writeFixed(t, filepath.Join(root, "f1"), posData(fileSize, 1))
-		writeFixed(t, filepath.Join(root, "f2"), posData(fileSize, 2))
+		writeFixed(t, filepath.Join(root, "f2"), posData(bigSize, 2))
 		writeFixed(t, filepath.Join(root, "aux"), []byte("aux"))
 		os.Mkdir(filepath.Join(root, "d"), 0o755)
 		os.Chtimes(filepath.Join(root, "d"), fixedTime.Add(10*time.Second), fixedTime)
@@ -122,7 +123,7 @@ func runPipeline(t testing.TB, tr *tracer, o srvOpts, sc scenario, salt int, dif
 	s := newSrvSession(t, tr, o)
 	if s.v != nil {
 		s.v.addFile("/f1", posData(fileSize, 1))
-		s.v.addFile("/f2", posData(fileSize, 2))
+		s.v.addFile("/f2", posData(bigSize, 2))
 		s.v.addFile("/aux", []byte("aux"))
 		s.v.addDir("/d")
 	}
@@ -173,6 +174,10 @@ func runPipeline(t testing.TB, tr *tracer, o srvOpts, sc scenario, salt int, dif
 			off := uint64(wrBase + i*opStride)
 			data := bytes.Repeat([]byte{byte(200 + i%50)}, opLen)
 			ops[i] = op{fWrite(id, h, off, data), "W:" + itoa(int(off)), order, true, int(off)}
+		case "B": // read longer than the server's maximum payload, on the large file (slot 2)
+			off := uint64(8192 + i*opStride)
+			n := []uint32{40000, 65536, 32769, 200000}[i%4]
+			ops[i] = op{fRead(id, handles[1], off, n), "R:" + itoa(int(off)), order, true, int(off)}
 		case "C":
 			ops[i] = op{fClose(id, h), "", order, false, -1}
 		default:
@@ -256,6 +261,8 @@ func genScenario(r *rand.Rand, maxLen int) scenario {
 		h := 1 + r.Intn(nSlots)
 		var k string
 		switch x := r.Intn(10); {
+		case x < 1:
+			k = "B"
 		case x < 3:
 			k = "R"
 		case x < 6:
@@ -273,7 +280,7 @@ func genScenario(r *rand.Rand, maxLen int) scenario {
 	}
 	var rw []int
 	for i, it := range sc.Prog {
-		if it.K == "R" || it.K == "W" {
+		if it.K == "R" || it.K == "W" || it.K == "B" {
 			rw = append(rw, i+1)
 		}
 	}
@@ -360,6 +367,10 @@ func diffPair(t testing.TB, tr *tracer, kind string, sc scenario, salt int) {
 		switch it.K {
 		case "C":
 			closed[it.H] = true
+		case "B":
+			if closed[2] {
+				it.K = "M"
+			}
 		case "R", "W":
 			if closed[it.H] {
 				if other := 3 - it.H; !closed[other] {
@@ -430,6 +441,9 @@ func TestVerif_AllocStress(t *testing.T) {
 					kk := "W"
 					if i%3 == 1 {
 						kk = "M"
+					}
+					if i%4 == 2 {
+						kk = "B"
 					}
 					sc.Prog = append(sc.Prog, pItem{kk, 2})
 				}
